@@ -595,6 +595,14 @@ impl NativeAsyncJob {
 /// [`GetActiveScriptOrModule()`]: https://tc39.es/ecma262/multipage/executable-code-and-execution-contexts.html#sec-getactivescriptormodule
 pub struct PromiseJob(NativeJob);
 
+#[cfg(boa_verif)]
+impl PromiseJob {
+    /// Address of the job's closure: identifies the job from the moment it is enqueued until it runs.
+    pub(crate) fn verif_id(&self) -> usize {
+        std::ptr::from_ref(&*self.0.f).cast::<()>() as usize
+    }
+}
+
 impl Debug for PromiseJob {
     fn fmt(&self, f: &mut std::fmt::Formatter<'_>) -> std::fmt::Result {
         f.debug_struct("PromiseJob").finish_non_exhaustive()
@@ -916,6 +924,10 @@ impl SimpleJobExecutor {
 
 impl JobExecutor for SimpleJobExecutor {
     fn enqueue_job(self: Rc<Self>, job: Job, context: &mut Context) {
+        #[cfg(boa_verif)]
+        if let Job::PromiseJob(p) = &job {
+            crate::verif::job_event('e', p.verif_id());
+        }
         match job {
             Job::PromiseJob(p) => self.promise_jobs.borrow_mut().push_back(p),
             Job::AsyncJob(a) => self.async_jobs.borrow_mut().push_back(a),
@@ -1027,6 +1039,8 @@ impl JobExecutor for SimpleJobExecutor {
 
             let jobs = mem::take(&mut *self.promise_jobs.borrow_mut());
             for job in jobs {
+                #[cfg(boa_verif)]
+                crate::verif::job_event('r', job.verif_id());
                 if let Err(err) = job.call(&mut context.borrow_mut()) {
                     self.clear();
                     return Err(err);
